@@ -105,6 +105,95 @@ func constructors() []subject {
 			}
 		}})
 	}
+	// same-kind and cross-kind collection sources: a collection built from another collection must not share its storage
+	type src struct {
+		name string
+		mk   func(n int) (col.Sequential[int], func(pos int))
+	}
+	srcs := []src{
+		{"Array", func(n int) (col.Sequential[int], func(int)) {
+			a := col.Array[int](N()).MakeFromArray(mk(n))
+			return a, func(pos int) {
+				if n > 0 {
+					a.SetValue(pos%n+1, -1)
+					a.ReverseValues()
+				}
+			}
+		}},
+		{"List", func(n int) (col.Sequential[int], func(int)) {
+			l := col.List[int](N()).MakeFromArray(mk(n))
+			return l, func(pos int) {
+				if n > 0 {
+					l.SetValue(pos%n+1, -1)
+				}
+				l.AppendValue(-2)
+				l.ReverseValues()
+			}
+		}},
+		{"Set", func(n int) (col.Sequential[int], func(int)) {
+			x := col.Set[int](N()).MakeFromArray(mk(n))
+			return x, func(pos int) { x.AddValue(-1); x.RemoveValue(10); x.AddValue(15) }
+		}},
+		{"Stack", func(n int) (col.Sequential[int], func(int)) {
+			x := col.Stack[int](N()).MakeFromArray(mk(n))
+			return x, func(pos int) {
+				x.AddValue(-1)
+				x.AddValue(-2)
+				x.RemoveTop()
+			}
+		}},
+		{"Queue", func(n int) (col.Sequential[int], func(int)) {
+			x := col.Queue[int](N()).MakeFromArray(mk(n))
+			return x, func(pos int) {
+				x.AddValue(-1)
+				x.RemoveHead()
+			}
+		}},
+	}
+	for _, k := range kinds {
+		for _, sc := range srcs {
+			k, sc := k, sc
+			out = append(out, subject{k.name + ".MakeFromSequence(" + sc.name + ")", func(n int) (any, func(int)) {
+				s, mut := sc.mk(n)
+				return k.seq(s), mut
+			}})
+		}
+	}
+	// ... and the other direction: mutating the new collection must not change the source
+	for _, k := range kinds {
+		for _, sc := range srcs {
+			k, sc := k, sc
+			out = append(out, subject{"source " + sc.name + " of " + k.name + ".MakeFromSequence", func(n int) (any, func(int)) {
+				s, _ := sc.mk(n)
+				c := k.seq(s)
+				return s, func(pos int) {
+					switch x := c.(type) {
+					case col.ListLike[int]:
+						if n > 0 {
+							x.SetValue(pos%n+1, -7)
+						}
+						x.AppendValue(-8)
+						x.ReverseValues()
+					case col.ArrayLike[int]:
+						if n > 0 {
+							x.SetValue(pos%n+1, -7)
+							x.ReverseValues()
+						}
+					case col.SetLike[int]:
+						x.AddValue(-7)
+						x.RemoveValue(10)
+					case col.StackLike[int]:
+						x.AddValue(-7)
+						x.AddValue(-8)
+						x.RemoveTop()
+					case col.QueueLike[int]:
+						x.AddValue(-7)
+						x.RemoveHead()
+					}
+				}
+			}})
+		}
+	}
 	// Catalog and Map
 	type assocKind struct {
 		name string
@@ -147,6 +236,34 @@ func constructors() []subject {
 					as[pos%n].SetValue(-1)
 					s.RemoveValue(pos%n + 1)
 				}
+			}
+		}})
+		out = append(out, subject{k.name + ".MakeFromSequence(Map)", func(n int) (any, func(int)) {
+			src := col.Map[string, int](N()).MakeFromMap(mkMap(n))
+			return k.seq(src), func(pos int) { src.SetValue("new", -1); src.RemoveValue("k0"); src.SetValue("k1", -2) }
+		}})
+		out = append(out, subject{k.name + ".MakeFromSequence(Catalog)", func(n int) (any, func(int)) {
+			src := col.Catalog[string, int](N()).MakeFromMap(mkMap(n))
+			return k.seq(src), func(pos int) { src.SetValue("new", -1); src.RemoveValue("k0"); src.SetValue("k1", -2); src.ReverseValues() }
+		}})
+		out = append(out, subject{"source Map of " + k.name + ".MakeFromSequence", func(n int) (any, func(int)) {
+			src := col.Map[string, int](N()).MakeFromMap(mkMap(n))
+			c := k.seq(src)
+			return src, func(pos int) {
+				a := c.(col.Associative[string, int])
+				a.SetValue("new", -1)
+				a.RemoveValue("k0")
+				a.SetValue("k1", -2)
+			}
+		}})
+		out = append(out, subject{"source Catalog of " + k.name + ".MakeFromSequence", func(n int) (any, func(int)) {
+			src := col.Catalog[string, int](N()).MakeFromMap(mkMap(n))
+			c := k.seq(src)
+			return src, func(pos int) {
+				a := c.(col.Associative[string, int])
+				a.SetValue("new", -1)
+				a.RemoveValue("k0")
+				a.SetValue("k1", -2)
 			}
 		}})
 	}
